@@ -355,6 +355,24 @@ class StmtMixin:
                     continue
                 yield from self.for_symbolic(n, st1, it, index_name=n.target.elts[0].id, elem_target=n.target.elts[1])
             return
+        if isinstance(n.iter, ast.Call) and isinstance(n.iter.func, ast.Name) and n.iter.func.id == "range" and 1 <= len(n.iter.args) <= 3 \
+                and not n.iter.keywords and isinstance(n.target, ast.Name):
+            # for x in range([a,] b[, step]) with a positive constant step: iteration p (= _i) binds x = a + p*step
+            step = 1
+            if len(n.iter.args) == 3:
+                if not (isinstance(n.iter.args[2], ast.Constant) and isinstance(n.iter.args[2].value, int) and n.iter.args[2].value > 0):
+                    raise Unsupported("range with a non-constant or non-positive step")
+                step = n.iter.args[2].value
+            for st1, vals in self.ev_list(list(n.iter.args[:2]), st):
+                if isinstance(vals, Raise):
+                    yield st1, ("raise", vals)
+                    continue
+                if any(v.ty != "int" for v in vals):
+                    raise Unsupported("range over non-integers")
+                a, b = (z3.IntVal(0), vals[0].t) if len(vals) == 1 else (vals[0].t, vals[1].t)
+                cnt = z3.If(b <= a, z3.IntVal(0), (b - a + (step - 1)) / step)
+                yield from self.for_symbolic(n, st1, None, virtual=(cnt, lambda p, a=a: Val(a + p * step, "int")))
+            return
         for st1, it in self.ev(n.iter, st):
             if isinstance(it, Raise):
                 yield st1, ("raise", it)
@@ -377,10 +395,13 @@ class StmtMixin:
                 else:
                     yield s2, flow
 
-    def for_symbolic(self, n, st, it, index_name=None, elem_target=None):
+    def for_symbolic(self, n, st, it, index_name=None, elem_target=None, virtual=None):
         k, spec = self.loop_spec(n)
-        itername = n.iter.id if (it.ty == "iter" and isinstance(n.iter, ast.Name)) else None
-        if it.ty == "iter":
+        itername = n.iter.id if (it is not None and it.ty == "iter" and isinstance(n.iter, ast.Name)) else None
+        seq = None
+        if virtual is not None:
+            pos0 = z3.IntVal(0)
+        elif it.ty == "iter":
             if itername is None:
                 raise Unsupported("for over anonymous iterator")
             seq, pos0 = it.py
@@ -390,8 +411,9 @@ class StmtMixin:
             else:
                 seq = self.seq_of(st, it)
             pos0 = z3.IntVal(0)
-        n_len = z3.Length(seq.t)
-        env0 = {"_i": Val(pos0, "int"), "_seq": seq}
+        n_len = z3.Length(seq.t) if virtual is None else virtual[0]
+        elem_at = (lambda p: Val(seq.t[p], seq.ty[1])) if virtual is None else virtual[1]
+        env0 = {"_i": Val(pos0, "int"), "_seq": seq} if seq is not None else {"_i": Val(pos0, "int")}
         self.check_invariants(st, k, spec, "inv-init", env0, n.lineno)
         h = self.havoc_for_loop(st, n, spec, extra_names=[itername] if itername else [])
         if itername:
@@ -399,7 +421,7 @@ class StmtMixin:
         else:
             pos = bound_var("_i", I)
             h.conds.append(z3.And(pos >= 0, pos <= n_len))
-        envh = {"_i": Val(pos, "int"), "_seq": seq}
+        envh = {"_i": Val(pos, "int"), "_seq": seq} if seq is not None else {"_i": Val(pos, "int")}
         h = self.assume_invariants(h, spec, envh)
         if not self.feasible(h):
             return
@@ -413,11 +435,12 @@ class StmtMixin:
             s_in.env[itername] = Val(None, "iter", (seq, pos + 1))
         if index_name is not None:
             s_in.env[index_name] = Val(pos, "int")
-        for s1, fl in self.assign(s_in, elem_target if elem_target is not None else n.target, Val(seq.t[pos], seq.ty[1]), n):
+        for s1, fl in self.assign(s_in, elem_target if elem_target is not None else n.target, elem_at(pos), n):
             for st2, flow in self.exec_block(n.body, s1):
                 if flow[0] in ("normal", "continue"):
                     nxt = st2.env[itername].py[1] if itername else pos + 1
-                    self.check_invariants(st2, k, spec, "inv-pres", {"_i": Val(nxt, "int"), "_seq": seq}, n.lineno)
+                    envn = {"_i": Val(nxt, "int"), "_seq": seq} if seq is not None else {"_i": Val(nxt, "int")}
+                    self.check_invariants(st2, k, spec, "inv-pres", envn, n.lineno)
                 elif flow[0] == "break":
                     yield st2, ("normal",)
                 else:
@@ -619,6 +642,8 @@ class StmtMixin:
             raise Unsupported(f"{flow[0]} outside loop")
 
     def run(self):
+        from . import core
+        core.reset_names()
         node = self.f.node
         # loop ordinals in source order
         self.loop_ordinals = {}
